@@ -1,4 +1,6 @@
-import Preflate.Props.C13
+import Preflate.Props.Library
+#print axioms Preflate.library_frag_independent
+#print axioms Preflate.library_error_clean
 #print axioms Preflate.frag_independent
 #print axioms Preflate.error_clean
 #print axioms Preflate.staging_matches_source
